@@ -25,9 +25,9 @@ LEVEL = 'exploration'
 ASSUMPTIONS = [
     'real TLS handshakes, cipher/version settings and chain validation by OpenSSL are replaced by a scripted socket '
     '(only Config.get_ssl_context() is overridden); the decision logic is what is tabulated',
-    'tcpcl.agent.Agent.connect() always hands the resolved address to the handler (no DNS-ID reference: DNS SANs can '
-    'neither match nor contradict); by_name cases connect through the D-Bus method Agent.connect('node.example', port) with a resolver that maps the name to the peer address, '
-    'which is the only way a DNS-ID reference arises',
+    'by_name cases connect through the D-Bus method Agent.connect("node.example", port) with a stub resolver that maps the '
+    'name to the peer address; otherwise the peer is reached by IP literal (no DNS-ID reference: DNS SANs can neither match '
+    'nor contradict)',
 ]
 EXHAUSTIVE_PART = 'TLS negotiation table: 96 cells against a scripted peer, the 12 x 12 = 144 pairs of cells with two real endpoints, and every certificate with <= 2 SAN entries (29 sets) x side x connect-by-name x require_host x require_node'
 
